@@ -88,6 +88,25 @@ func c05Body(rc *core.RunCtx, prop string) {
 	if len(rc.Viol) > 0 {
 		return
 	}
+	// a quiet tail longer than the dc-location refresh interval, then a few more requests: whatever was stale right
+	// after an election or a join must have been refreshed by now
+	if prop == "c05" && rc.Knob("long_tail", 3) == 1 {
+		e.Quiesce() // faults stop here
+		simrt.Sleep(75 * time.Second)
+		for _, dc := range dcs {
+			running++
+			e.tsoClient("tail-"+dc, o, tsoClientCfg{nReq: 3, dc: dc, maxGap: gap, pLeader: 0.3}, &running)
+		}
+		running++
+		e.tsoClient("tail-global", o, tsoClientCfg{nReq: 3, maxGap: gap, pLeader: 0.8}, &running)
+		for running > 0 && len(rc.Viol) == 0 {
+			simrt.Sleep(100 * time.Millisecond)
+		}
+		rc.Extra["long_tail"]++
+		if len(rc.Viol) > 0 {
+			return
+		}
+	}
 	e.Quiesce()
 	// suffix width reported with a timestamp is large enough for every suffix in use
 	maxSuffix := 0
